@@ -8,10 +8,11 @@ import OdcGeo.Lemmas.Affine
 import Mathlib.Tactic.Ring
 import Mathlib.Tactic.Linarith
 import Mathlib.Tactic.FieldSimp
+import Mathlib.Data.List.Nodup
 
 namespace OdcGeo.C05
 
-theorem alignUp_dvd (x a : Nat) (ha : 0 < a) : a ∣ alignUp x a := by
+theorem alignUp_dvd (x a : Nat) (_ha : 0 < a) : a ∣ alignUp x a := by
   unfold alignUp alignDown
   have h := Nat.div_add_mod (x + (a - 1)) a
   exact ⟨(x + (a - 1)) / a, by omega⟩
@@ -156,7 +157,7 @@ theorem levelLoop_spec (blk : Nat → Blk) (n : Nat) :
             | some A =>
               simp only [Option.map]
               rw [Aff.mul_assoc', scale_mul_scale]
-              congr 3 <;> (push_cast; ring)
+              congr 3 <;> ring
       cases g with
       | none =>
         obtain ⟨lv, hlv, hlen, hall⟩ := hrec none
@@ -221,11 +222,11 @@ theorem look_updInfo (info : TileInfo) (l f off sz l' f' : Nat) :
       · subst h2
         simp only [look, List.getElem?_set_self hlt, hl, List.getElem?_set]
         by_cases ho : f' < os.length <;> by_cases hn : f' < ns.length <;>
-          simp [ho, hn, List.getElem?_eq_none, Nat.le_of_not_lt]
+          simp [ho, hn]
       · have h2' : f ≠ f' := fun h => h2 h.symm
-        simp [look, List.getElem?_set_self hlt, hl, List.getElem?_set, h2, h2']
+        simp [look, List.getElem?_set_self hlt, hl, h2, h2']
     · have h1' : l ≠ l' := fun h => h1 h.symm
-      simp [look, List.getElem?_set, h1, h1']
+      simp [look, h1, h1']
 
 
 
@@ -415,5 +416,95 @@ theorem writeOrder_levels_desc (ms : List Meta) :
       exact pairwise_of_const (fun e he => (mem_bag he).1)
     · rw [List.pairwise_reverse]
       exact (bagsFrom_sorted m0.planes (m0 :: rest) 0).imp (fun h x hx y hy => h y hy x hx)
+
+theorem bag_nodup (m : Meta) (l s : Nat) : (bag m l s).Nodup := by
+  have h : (bag m l s).map (fun e => e.2.2.1 * m.chunked.x + e.2.2.2) =
+      List.range (m.chunked.y * m.chunked.x) := by
+    rw [← range_flatMap_range]
+    simp only [bag, List.map_flatMap, List.map_map]
+    rfl
+  exact List.Nodup.of_map _ (h ▸ List.nodup_range)
+
+/-- (level, plane) strictly increases along `_tiles` -/
+theorem bagsFrom_strict (planes : Nat) : ∀ (ms : List Meta) (k : Nat),
+    (bagsFrom planes k ms).Pairwise
+      (fun b1 b2 => ∀ x ∈ b1, ∀ y ∈ b2, x.1 < y.1 ∨ (x.1 = y.1 ∧ x.2.1 < y.2.1)) := by
+  intro ms
+  induction ms with
+  | nil => intro k; simp [bagsFrom]
+  | cons m ms ih =>
+    intro k
+    rw [bagsFrom_cons, List.pairwise_append]
+    refine ⟨?_, ih (k + 1), ?_⟩
+    · rw [List.pairwise_map]
+      refine List.Pairwise.imp_of_mem ?_ (List.pairwise_lt_range (n := planes))
+      intro s s' _ _ hss x hx y hy
+      right
+      rw [(mem_bag hx).1, (mem_bag hy).1, (mem_bag hx).2.1, (mem_bag hy).2.1]
+      exact ⟨rfl, hss⟩
+    · intro b1 hb1 b2 hb2 x hx y hy
+      simp only [List.mem_map, List.mem_range] at hb1
+      obtain ⟨s, _, rfl⟩ := hb1
+      have := bagsFrom_ge planes ms (k + 1) b2 hb2 y hy
+      left
+      rw [(mem_bag hx).1]; omega
+
+theorem writeOrder_nodup (ms : List Meta) : (writeOrder ms).Nodup := by
+  cases ms with
+  | nil => simp [writeOrder]
+  | cons m0 rest =>
+    rw [writeOrder_eq, List.nodup_flatten]
+    refine ⟨?_, ?_⟩
+    · intro b hb
+      rw [List.mem_reverse] at hb
+      simp only [bagsFrom, List.mem_flatMap, List.mem_map, List.mem_range] at hb
+      obtain ⟨⟨m, l⟩, _, s, _, rfl⟩ := hb
+      exact bag_nodup m l s
+    · rw [List.pairwise_reverse]
+      refine (bagsFrom_strict m0.planes (m0 :: rest) 0).imp ?_
+      intro b1 b2 h x hx2 hx1
+      have := h x hx1 x hx2
+      omega
+
+
+
+theorem extractLoop_total (ms : List Meta) : ∀ (ts : List Obs) (st : TileInfo × Nat),
+    (∀ t ∈ ts, ∃ k, obsKey ms t = .ok k) → ∃ st', extractLoop ms st ts = .ok st' := by
+  intro ts
+  induction ts with
+  | nil => intro st _; exact ⟨st, rfl⟩
+  | cons t ts ih =>
+    intro st h
+    obtain ⟨k, hk⟩ := h t (List.mem_cons_self ..)
+    rw [extractLoop]
+    have : ∃ st1, extractStep ms st t = .ok st1 := by
+      unfold extractStep
+      rw [hk]
+      obtain ⟨l, f⟩ := k
+      by_cases hz : t.sz ≠ 0
+      · exact ⟨(updInfo st.1 l f st.2 t.sz, st.2 + t.sz), by simp only [if_pos hz]⟩
+      · exact ⟨st, by simp only [if_neg hz]⟩
+    obtain ⟨st1, hs⟩ := this
+    rw [hs]
+    exact ih st1 (fun t' ht' => h t' (List.mem_cons_of_mem _ ht'))
+
+
+theorem pow2Below_spec : ∀ (fuel p x : Nat), 1 ≤ p → p ≤ x → x - p ≤ fuel → (∃ k, p = 2 ^ k) →
+    (∃ k, pow2Below fuel p x = 2 ^ k) ∧ pow2Below fuel p x ≤ x ∧ x < 2 * pow2Below fuel p x := by
+  intro fuel
+  induction fuel with
+  | zero =>
+    intro p x h1 h2 h3 hk
+    simp only [pow2Below]
+    exact ⟨hk, h2, by omega⟩
+  | succ fuel ih =>
+    intro p x h1 h2 h3 ⟨k, hk⟩
+    simp only [pow2Below]
+    split
+    · rename_i h
+      exact ih (2 * p) x (by omega) h (by omega) ⟨k + 1, by rw [hk, Nat.pow_succ, Nat.mul_comm]⟩
+    · rename_i h
+      exact ⟨⟨k, hk⟩, h2, by omega⟩
+
 
 end OdcGeo.C05
